@@ -99,6 +99,27 @@ def run_lines(exe, lines, timeout=600, env=None):
     return out, r
 
 
+def par_lines(exe, lines, shards=None, timeout=600, env=None, filler='DIED driver'):
+    """run_lines over contiguous shards in parallel (the programs are stateless per request line);
+    responses come back in request order; a shard that dies is padded with `filler`."""
+    import concurrent.futures
+    n = len(lines)
+    if n == 0:
+        return []
+    shards = shards or max(1, min(int(NPROC), 12))
+    size = max(1, (n + shards - 1) // shards)
+    parts = [lines[i:i + size] for i in range(0, n, size)]
+
+    def one(part):
+        out, _ = run_lines(exe, part, timeout=timeout, env=env)
+        if len(out) < len(part):
+            out = out + [filler] * (len(part) - len(out))
+        return out[:len(part)]
+    with concurrent.futures.ThreadPoolExecutor(max_workers=len(parts)) as ex:
+        res = list(ex.map(one, parts))
+    return [x for part in res for x in part]
+
+
 # ------------------------------------------------------------------------------------------
 # Coq side
 # ------------------------------------------------------------------------------------------
